@@ -752,12 +752,29 @@ def _full(draw, og):
     return {"args": [shape_arg, P(fill)], "kw": {}}
 
 
+def _like_kw(draw, og, a):
+    """Sometimes another shape (tuple, int or numpy int), and - for numbers - another dtype."""
+    kw = {}
+    if draw(st.integers(0, 3)) == 0:
+        shp = list(draw(gen.shape_st(2, 1)))
+        kw["shape"] = {"$tuple": shp} if len(shp) > 1 or draw(st.booleans()) else (
+            shp[0] if draw(st.booleans()) else {"$npint": shp[0]})
+    if getattr(og, "mode", "") == "const" and draw(st.integers(0, 3)) == 0:
+        kw["dtype"] = {"$dtype": draw(st.sampled_from(["float64", "complex128"] + (["int64"] if a.get("kind") == "i" else [])))}
+    return kw
+
+
 @recipe("full_like", "creation")
 def _full_like(draw, og):
     a = og.array(draw, max_ndim=2)
-    fill = og.related(draw, a, () if draw(st.booleans()) else gen.broadcast_member(draw, tuple(a["shape"])),
-                      kind=a["kind"])
-    return {"args": [P(a), P(fill)], "kw": {}}
+    kw = _like_kw(draw, og, a)
+    shape = tuple(a["shape"])
+    if "shape" in kw:
+        v = kw["shape"]
+        shape = tuple(v["$tuple"]) if isinstance(v, dict) and "$tuple" in v else (
+            (v["$npint"],) if isinstance(v, dict) else (v,))
+    fill = og.related(draw, a, () if draw(st.booleans()) else gen.broadcast_member(draw, shape), kind=a["kind"])
+    return {"args": [P(a), P(fill)], "kw": kw}
 
 
 for _n in ("zeros", "ones"):
@@ -771,7 +788,8 @@ for _n in ("zeros", "ones"):
 for _n in ("zeros_like", "ones_like"):
     @recipe(_n, "creation")
     def _zeros_like(draw, og):
-        return {"args": [P(og.array(draw))], "kw": {}}
+        a = og.array(draw)
+        return {"args": [P(a)], "kw": _like_kw(draw, og, a)}
 
 
 # ---- selection
